@@ -39,6 +39,7 @@ MODEL_SWITCHES = [
     ("MC_Iscan", "MC_Iscan_bug16.cfg", "IscanPhantomOK", "F16: end-of-border callback skipped when the cursor position equals the max sentinel"),
     ("MC_IscanW", "MC_IscanW_bug18.cfg", "CursorOK", "F18: a deleted saved layer root below layer 0 always means 'the layer is gone' (rest of a layer with a collapsed interior root skipped)"),
     ("MC_IscanW", "MC_IscanW_bug19.cfg", "EaAct", "F19: early_abort cursor goes on when its border and the neighbour were emptied"),
+    ("MC_IscanW", "MC_IscanW_bug20.cfg", "CursorOK", "F20: the new root of a layer is looked up in the border saved for the upper layer although that border was split and the link moved"),
     ("MC_Tree", "MC_Tree_scan5_f2.cfg", "ScanOK", "F2: scan uses l_key with INF"),
     ("MC_Tree", "MC_Tree_scan5_f3.cfg", "PhantomOK", "F3: links-only border not recorded"),
 ]
